@@ -140,3 +140,7 @@ Section Orchestration.
 End Orchestration.
 
 Arguments Ok {A}. Arguments Raise {A}.
+Arguments phys {Phys}. Arguments tsc {Phys}. Arguments season {Phys}. Arguments dap {Phys}. Arguments mature {Phys}.
+Arguments hflag {Phys}. Arguments fin {Phys}.
+Arguments s_season {Out}. Arguments s_date {Out}. Arguments s_step {Out}. Arguments s_out {Out}.
+Arguments rows {Row Out}. Arguments sums {Row Out}. Arguments st {Phys Row Out}. Arguments tabs {Phys Row Out}.
